@@ -45,10 +45,25 @@ Section C10.
     (run_stream gst gstart gstep gcomplete lst lstart lstep lcomplete level_known false (before ++ [sq] ++ after) = Accept
      <-> run gst gstart gstep gcomplete lst lstart lstep lcomplete level_known false sq = Accept).
   Proof. exact (independent gst gstart gstep gcomplete lst lstart lstep lcomplete level_known false). Qed.
+
+  (* ... and the validator outputs exactly the concatenation of the pictures each sequence produces
+     alone (run_obs = verdict, number of sequences gone through, picture numbers output in order) *)
+  Theorem C10_pictures_are_concatenated : forall seqs,
+    Forall (fun s => eos_only_last s = true) seqs ->
+    Forall (fun s => run gst gstart gstep gcomplete lst lstart lstep lcomplete level_known false s = Accept) seqs ->
+    run_obs gst gstart gstep gcomplete lst lstart lstep lcomplete level_known false true
+            (init_state gst gstart lst) (List.concat seqs) 0 [] =
+    (Accept, Z.of_nat (List.length seqs),
+     List.concat (List.map (pics_of gst gstart gstep gcomplete lst lstart lstep lcomplete level_known false) seqs)).
+  Proof.
+    exact (fun seqs Hl Ha =>
+             pictures_concat gst gstart gstep gcomplete lst lstart lstep lcomplete level_known false seqs Hl Ha 0 []).
+  Qed.
 End C10.
 
-(* partial: `pictures (run_stream ss) = concat (map pictures_of ss)` (run_obs) is not yet a theorem; it is
-   covered by the differential run of tools/harness/C10.py only. *)
+(* Not modelled: the CONTENT of the decoded pictures (the model's picture list holds picture numbers);
+   content, video parameters and picture coding mode handed to the callback are compared by the
+   differential run of tools/harness/C10.py. *)
 
 Example C10_example : str_in retained_state_fields "_file" = true /\ str_in retained_state_fields "_last_picture_number" = false.
 Proof. vm_compute. split; reflexivity. Qed.
